@@ -16,5 +16,5 @@ CONSTANTS
   Nauth1 = 48
   Nauth2 = 256
   Nauth5 = 64
-  Enforce = {"no-invalid-token", "retry-returns-valid-tokens", "returned-tokens-keep-their-value", "quiet", "request-on-wire-is-grammar", "response-on-wire-is-grammar", "honest-completes", "count", "token-layout", "token-verifies-under-pinned-key", "issuer-verify-accepts", "model-verdict", "listed-mutation-rejected", "signs-only-authentic", "no-response-on-error", "response-shape", "verify-exact", "honest-token-accepted", "listed-alteration-rejected", "det-run-ok", "create-is-pure", "blind-changes-request", "token-ignores-blind", "token-ignores-run", "element-is-function-of-its-own-blind", "vector-request-bytes", "vector-token-bytes", "vector-batch-request-bytes", "unknown-event"}
+  Enforce = {"no-invalid-token", "retry-returns-valid-tokens", "returned-tokens-keep-their-value", "quiet", "request-on-wire-is-grammar", "response-on-wire-is-grammar", "honest-completes", "count", "token-layout", "token-verifies-under-pinned-key", "issuer-verify-accepts", "model-verdict", "listed-mutation-rejected", "signs-only-authentic", "no-response-on-error", "response-shape", "verify-exact", "honest-token-accepted", "listed-alteration-rejected", "det-run-ok", "create-is-pure", "blind-changes-request", "token-ignores-blind", "token-ignores-run", "element-is-function-of-its-own-blind", "vector-request-bytes", "vector-token-bytes", "vector-batch-request-bytes", "only-own-type-accepted", "unknown-event"}
 CHECK_DEADLOCK FALSE
